@@ -211,17 +211,6 @@ fn search_body<const N: usize, const L: usize, const BUF: usize>(c05: bool, c06:
         assert!(uq.is_some() == (k == 1 && matches!(&data[0], Some(FoundDateTimeKind::Normal(_)))));
         kani::cover!(k >= 2 && matches!(ei, FoundDateTimeKind::Normal(_)));
     }
-    // no duplicates, ascending order
-    let j: usize = kani::any();
-    kani::assume(j < k && i < j);
-    let ej = match &data[j] {
-        Some(e) => e,
-        None => {
-            assert!(false);
-            return;
-        }
-    };
-    assert!(entry_instant(ei) < entry_instant(ej));
     if c06 {
         if let FoundDateTimeKind::Skipped { before_transition: b, after_transition: a } = ei {
             let t = b.unix_time;
@@ -243,6 +232,8 @@ fn search_body<const N: usize, const L: usize, const BUF: usize>(c05: bool, c06:
             }
             assert!(packed_is(b, (t as i128 + ob) as i64) && packed_is(a, (t as i128 + oa) as i64));
         }
+        kani::cover!(matches!(ei, FoundDateTimeKind::Skipped { .. }));
+        kani::cover!(matches!(ei, FoundDateTimeKind::Normal(_)) && k == 2);
         // conversely: every table gap containing the searched local time is reported
         let g: usize = kani::any();
         kani::assume(g < n && (g + 1 < n || rule.is_some()));
@@ -265,14 +256,23 @@ fn search_body<const N: usize, const L: usize, const BUF: usize>(c05: bool, c06:
         }
         // earliest / latest are the true extremes
         let first = match &data[0] {
-            Some(FoundDateTimeKind::Normal(d)) => d.unix_time,
-            Some(FoundDateTimeKind::Skipped { before_transition, .. }) => before_transition.unix_time,
+            Some(e) => entry_instant(e),
+            None => 0,
+        };
+        let last = match &data[k - 1] {
+            Some(e) => entry_instant(e),
             None => 0,
         };
         assert!(matches!(list.earliest(), Some(d) if d.unix_time == first && first <= entry_instant(ei)));
-        assert!(matches!(list.latest(), Some(d) if d.unix_time >= entry_instant(ej)));
-        kani::cover!(matches!(ei, FoundDateTimeKind::Skipped { .. }));
-        kani::cover!(matches!(ej, FoundDateTimeKind::Skipped { .. }) && matches!(ei, FoundDateTimeKind::Normal(_)));
+        assert!(matches!(list.latest(), Some(d) if d.unix_time == last && last >= entry_instant(ei)));
+    }
+    // no duplicates, strictly ascending order
+    let j: usize = kani::any();
+    if j < k && i < j {
+        match &data[j] {
+            Some(ej) => assert!(entry_instant(ei) < entry_instant(ej)),
+            None => assert!(false),
+        }
     }
 }
 
@@ -292,11 +292,11 @@ macro_rules! search_harness {
 search_harness!(c05_table_n1, 1, 0, true, false, 5);
 search_harness!(c05_table_n2, 2, 0, true, false, 6);
 search_harness!(c05_table_n3, 3, 0, true, false, 7);
-search_harness!(c05_table_n2_leap1, 2, 1, true, false, 6);
+search_harness!(c05_table_leap1_n2, 2, 1, true, false, 6);
 search_harness!(c06_table_n1, 1, 0, false, true, 5);
 search_harness!(c06_table_n2, 2, 0, false, true, 6);
 search_harness!(c06_table_n3, 3, 0, false, true, 7);
-search_harness!(c06_table_n2_leap1, 2, 1, false, true, 6);
+search_harness!(c06_table_leap1_n2, 2, 1, false, true, 6);
 
 // ------------------------------------------------------------------ C17
 fn same_entry(a: &Option<FoundDateTimeKind>, b: &Option<FoundDateTimeKind>) -> bool {
